@@ -49,6 +49,10 @@ PixQueryOK(j, O) == HasSeg => \A n \in Present(O) : Rng(j.q.pix[n]) = MaskOf(O, 
 P_C07R(x) == P_C07(x) /\ ((HasSeg /\ x.pf.forest /\ x.pf.seg /\ x.ok /\ ~IsSwitch(x.c)) => PixQueryOK(Rec.post, x.post))
              /\ ((HasSeg /\ PFValid(x.pf) /\ Accepted(x)) => x.u_post.seg = x.pre.seg)
 
+\* C11: "the track lookups ... are exactly as before the call" also counts the KEYS of the two lookup dicts
+\* (an entry with an empty node list is invisible in the <<id, node>> pairs)
+P_C11R(x) == P_C11(x) /\ ((IsEdit(x.c) /\ Refused(x) /\ ~IsPrim(x.c)) => Rec.pre.nkeys = Rec.post.nkeys)
+
 (***************************************************************************)
 (* Refinement: model step from the REAL pre-state                          *)
 (***************************************************************************)
@@ -117,7 +121,7 @@ Report ==
     /\ Rep("C08", 18, HasSeg /\ Accepted(x) /\ x.pre.seg # x.post.seg, P_C08(x))
     /\ Rep("C09", 19, HasSeg /\ Accepted(x) /\ x.post.E # {} /\ x.pre.seg # x.post.seg, P_C09(x))
     /\ Rep("C10", 20, IsSwitch(x.c) \/ ManagedKey(x.c) \/ (Available \ x.pre.act # {} /\ Accepted(x)), P_C10(x))
-    /\ Rep("C11", 21, IsEdit(x.c) /\ Refused(x), P_C11(x))
+    /\ Rep("C11", 21, IsEdit(x.c) /\ Refused(x), P_C11R(x))
     /\ Rep("C20", 30, IsEdit(x.c), P_C20(x))
     /\ (("REF" \in Check) =>
           (Refines(x) \/ PrintT(<<"DRIFT", i, DriftWhat(x)>>)))
